@@ -97,6 +97,10 @@ type parser struct {
 	loops      a.LoopStack
 	allowVar   bool
 	depth      uint32
+
+	// ioManips has one element per enclosing io_bind, io_forget_history or
+	// io_limit block: the number of enclosing loops when that block started.
+	ioManips []int
 }
 
 // maxDepth bounds the parser's recursion (nested parentheses, unary operators,
@@ -835,6 +839,15 @@ func (p *parser) parseStatement1() (*a.Node, error) {
 				x.Str(p.tm), sepStr, labelStr, p.filename, p.line())
 		}
 
+		if n := len(p.ioManips); n > 0 {
+			for i, l := range p.loops {
+				if (l == loop) && (i < p.ioManips[n-1]) {
+					return nil, fmt.Errorf(`parse: %s out of an io_bind, io_forget_history or io_limit block at %s:%d`,
+						x.Str(p.tm), p.filename, p.line())
+				}
+			}
+		}
+
 		// The generated code for an iterate loop is a sequence of C loops (one
 		// per round, plus unrolling remainders), whose cursor advances at the
 		// end of each body. A C "break" would only leave the current round
@@ -898,6 +911,10 @@ func (p *parser) parseStatement1() (*a.Node, error) {
 
 	case t.IDReturn, t.IDYield:
 		p.src = p.src[1:]
+		if len(p.ioManips) > 0 {
+			return nil, fmt.Errorf(`parse: %s inside an io_bind, io_forget_history or io_limit block at %s:%d`,
+				x.Str(p.tm), p.filename, p.line())
+		}
 		if x == t.IDYield {
 			if !p.funcEffect.Coroutine() {
 				return nil, fmt.Errorf(`parse: yield within non-coroutine at %s:%d`, p.filename, p.line())
@@ -1045,6 +1062,11 @@ func (p *parser) parseAssignNode() (*a.Node, error) {
 	if p.funcEffect.WeakerThan(rhs.Effect()) {
 		return nil, fmt.Errorf(`parse: value %q's effect %q is stronger than the func's effect %q at %s:%d`,
 			rhs.Str(p.tm), rhs.Effect(), p.funcEffect, p.filename, p.line())
+	}
+	if (len(p.ioManips) > 0) && rhs.Effect().Coroutine() && (op != t.IDEqQuestion) {
+		// With "=?", the callee's suspension is just a status value here.
+		return nil, fmt.Errorf(`parse: %q could suspend inside an io_bind, io_forget_history or io_limit block (use "=?") at %s:%d`,
+			rhs.Str(p.tm), p.filename, p.line())
 	}
 
 	return a.NewAssign(op, lhs, rhs).AsNode(), nil
@@ -1200,7 +1222,12 @@ func (p *parser) parseIOManipNode() (*a.Node, error) {
 	}
 	p.src = p.src[1:]
 
+	// The generated code restores the manipulated I/O state at the end of the
+	// block, so control must leave the block through its end: a jump out of
+	// it, a return or a suspension inside it would skip that code.
+	p.ioManips = append(p.ioManips, len(p.loops))
 	body, err := p.parseBlock(false)
+	p.ioManips = p.ioManips[:len(p.ioManips)-1]
 	if err != nil {
 		return nil, err
 	}
